@@ -84,6 +84,17 @@ pub struct Shared {
     pub calls: u64,
     pub call_cap: u64,
     pub cap_hit: bool,
+    pub trace: bool,
+    /// bytes each end handed to the duplex (visible or staged)
+    pub delivered: [u64; 2],
+    /// [end][kind]: ignore scheduled `pend` for this kind (avoidance of a known shape)
+    pub suppress_pend: [[bool; 3]; 2],
+    /// [end][kind]: the same, but only while that end's owner is handshaking
+    pub suppress_pend_hs: [[bool; 3]; 2],
+    /// the last flush/close call of this end returned `Pending` and no later one completed
+    pub flush_unretried: [bool; 2],
+    /// a violation observed by a transport wrapper (signature, detail)
+    pub violation: Option<(String, String)>,
 }
 
 pub type Sh = Rc<RefCell<Shared>>;
@@ -104,6 +115,12 @@ impl Shared {
             calls: 0,
             call_cap,
             cap_hit: false,
+            trace: std::env::var("C15_TRACE").is_ok(),
+            delivered: [0; 2],
+            suppress_pend: [[false; 3]; 2],
+            suppress_pend_hs: [[false; 3]; 2],
+            flush_unretried: [false; 2],
+            violation: None,
         }))
     }
 
@@ -159,8 +176,17 @@ impl Shared {
 
     /// Consult the schedule for a call of `kind`.  `Err(())` = return `Pending` now.
     fn consult(&mut self, me: usize, kind: usize, cx: &mut Context<'_>) -> Result<usize, ()> {
+        let r = self.consult_inner(me, kind, cx);
+        if self.trace {
+            eprintln!("  [t={} end{me}] {} -> {:?}", self.now, ["read", "write", "flush/close"][kind], r.map(|l| if l == usize::MAX { 0 } else { l }));
+        }
+        r
+    }
+
+    fn consult_inner(&mut self, me: usize, kind: usize, cx: &mut Context<'_>) -> Result<usize, ()> {
         self.calls += 1;
         let now = self.now;
+        let suppress = self.suppress_pend[me][kind] || (self.suppress_pend_hs[me][kind] && self.ends[me].handshaking);
         let e = &mut self.ends[me];
         let list = match kind {
             READ => &e.sched.read,
@@ -170,7 +196,10 @@ impl Shared {
         if list.is_empty() {
             return Ok(usize::MAX);
         }
-        let ev = list[e.ix[kind] % list.len()];
+        let mut ev = list[e.ix[kind] % list.len()];
+        if suppress {
+            ev.pend = 0;
+        }
         if ev.pend > 0 && !e.pend_served[kind] {
             e.pend_served[kind] = true;
             e.stats.sched_pend[kind] += 1;
@@ -217,6 +246,9 @@ impl Shared {
             }
             self.calls += 1;
             self.pipes[peer].reader = Some(cx.waker().clone());
+            if self.trace {
+                eprintln!("  [t={} end{me}] read -> natural Pending", self.now);
+            }
             let e = &mut self.ends[me];
             e.stats.natural_pend += 1;
             if e.handshaking {
@@ -256,6 +288,7 @@ impl Shared {
             Err(()) => return Poll::Pending,
         };
         let n = src.len().min(limit);
+        self.delivered[me] += n as u64;
         let buffering = self.ends[me].sched.buffering;
         let p = &mut self.pipes[me];
         if buffering {
@@ -296,8 +329,10 @@ impl Shared {
             return Poll::Ready(Err(e));
         }
         if self.consult(me, FLUSH, cx).is_err() {
+            self.flush_unretried[me] = true;
             return Poll::Pending;
         }
+        self.flush_unretried[me] = false;
         self.publish(me);
         let e = &mut self.ends[me];
         e.stats.flushes += 1;
@@ -315,8 +350,10 @@ impl Shared {
             return Poll::Ready(Ok(()));
         }
         if self.consult(me, FLUSH, cx).is_err() {
+            self.flush_unretried[me] = true;
             return Poll::Pending;
         }
+        self.flush_unretried[me] = false;
         self.publish(me);
         self.hangup(me);
         Poll::Ready(Ok(()))
